@@ -254,6 +254,11 @@ def main(argv=None):
         if a.show_bystanders and k in bystander_samples:
             print("   " + str(bystander_samples[k]["detail"]).replace("\n", "\n   "))
             print("   case: " + json.dumps(bystander_samples[k]["case"], default=repr)[:3000])
+            bp = os.path.join(VERIF, "replays", "bystander-%s-%s.json" % (prop, _slug(k)))
+            with open(bp, "w") as f:
+                json.dump({"property": prop, "tier": tier, "seed": seed, "key": k,
+                           "case": bystander_samples[k]["case"]}, f, default=repr)
+            print("   replay: " + bp)
     for key, n in sorted(unknown_keys.items()):
         print("VIOLATION property=%s replay=%s key=%s count=%d" % (prop, replay_paths[key], key, n))
         w = [v for v in violations if v["key"] == key][0]
